@@ -65,6 +65,8 @@ def to_obs(v):
         return f"(OS {cstr(v)})"
     if isinstance(v, (list, tuple)):
         return "(OL " + clist([to_obs(x) for x in v]) + ")"
+    if isinstance(v, dict) and set(v) == {"__olz"}:
+        return "(olz [" + "; ".join(str(int(x)) if x >= 0 else f"({int(x)})" for x in v["__olz"]) + "]%Z)"
     if isinstance(v, dict):
         # dicts are compared as sorted key/value lists
         return "(OL " + clist([to_obs([str(k), v[k]]) for k in sorted(v, key=str)]) + ")"
@@ -447,3 +449,69 @@ def drifted(pid_funcs):
     ref = json.load(open(path))
     cur = source_hashes(pid_funcs)
     return [k for k in pid_funcs if ref.get(k) is not None and ref.get(k) != cur[k]]
+
+
+# ----------------------------------------------------------------------------------------------
+# reading an obs value back from Coq (debugging aid and replay explanations)
+def parse_obs(text):
+    """Parse Coq's printing of a Base.obs value into Python (OZ -> int, OB -> bool, ON -> None, OS -> str, OL -> list)."""
+    toks = re.findall(r'"(?:[^"]|"")*"|\(-\d+\)|-?\d+|OL|OZ|OB|ON|OS|true|false|\[|\]|;', text)
+    pos = [0]
+
+    def val():
+        t = toks[pos[0]]
+        pos[0] += 1
+        if t == "ON":
+            return None
+        if t == "OZ":
+            n = toks[pos[0]]
+            pos[0] += 1
+            return int(n.strip("()"))
+        if t == "OB":
+            b = toks[pos[0]]
+            pos[0] += 1
+            return b == "true"
+        if t == "OS":
+            s = toks[pos[0]]
+            pos[0] += 1
+            return s[1:-1]
+        if t == "OL":
+            assert toks[pos[0]] == "[", toks[pos[0]]
+            pos[0] += 1
+            out = []
+            while toks[pos[0]] != "]":
+                if toks[pos[0]] == ";":
+                    pos[0] += 1
+                    continue
+                out.append(val())
+            pos[0] += 1
+            return out
+        raise ValueError(f"unexpected token {t!r}")
+    return val()
+
+
+def coq_eval_obs(imports, term, timeout=300):
+    os.makedirs(SCRATCH, exist_ok=True)
+    work = os.path.join(SCRATCH, f"evalobs_{os.getpid()}")
+    shutil.rmtree(work, ignore_errors=True)
+    os.makedirs(work)
+    path = os.path.join(work, "Show.v")
+    with open(path, "w") as f:
+        f.write(f"From PD Require Import Base {imports}.\nOpen Scope string_scope.\nOpen Scope list_scope.\n")
+        f.write(f"Eval vm_compute in ({term}).\n")
+    rc, out = _run(["coqc", "-Q", os.path.join(COQ, "theories"), "PD"] + COQ_WARN + [path], work, timeout)
+    shutil.rmtree(work, ignore_errors=True)
+    if rc != 0:
+        raise CoqError(out[-2000:])
+    body = out[out.index("=") + 1:]
+    body = body[:body.rindex(": obs")]
+    return parse_obs(body)
+
+
+def plain(v):
+    """Python observation with {'__olz': [...]} markers replaced by the plain list"""
+    if isinstance(v, dict) and set(v) == {"__olz"}:
+        return list(v["__olz"])
+    if isinstance(v, (list, tuple)):
+        return [plain(x) for x in v]
+    return v
